@@ -1430,7 +1430,7 @@ fn c08_case(sink: &mut Sink, w: &World, q: &Query, kind: &str, extra_tags: &[Str
             rec.tags.push("graph:selfloop-or-parallel".into());
         }
         if let (Some(p), Some(o)) = (&run.plan_coq, &run.obs_coq) {
-            rec.coq = Some(format!("chk_run {} {} {} {mode} {}", opts_coq(w), run.st_coq, p, o));
+            rec.coq = Some(format!("chk_run_k5 {} {} {} {mode} {}", opts_coq(w), run.st_coq, p, o));
             rec.show = Some(format!("show_run {} {} {}", opts_coq(w), run.st_coq, p));
         }
         // an engine error on a query the front end accepted counts as a wrong answer; a query the
@@ -1951,7 +1951,7 @@ fn c10_rec(
     rec.tags = run.tags.clone();
     rec.tags.extend_from_slice(extra);
     if let (Some(p), Some(o)) = (&run.plan_coq, &run.obs_coq) {
-        rec.coq = Some(format!("chk_run {} {} {} {mode} {}", opts_coq(w), run.st_coq, p, o));
+        rec.coq = Some(format!("chk_run_k5 {} {} {} {mode} {}", opts_coq(w), run.st_coq, p, o));
         rec.show = Some(format!("show_run {} {} {}", opts_coq(w), run.st_coq, p));
     }
     if let (Some((what, ob)), Some(o)) = (other, &run.obs_coq) {
